@@ -484,6 +484,8 @@ def explore(args):
                                                                  {"config": list(cfg), "history": hist}, detail))
                 if exc is not None:
                     continue
+                if any(k.get("class") == "tracked_path_outside_watch_path" for k, _ in errs):
+                    continue  # a state outside the small universe cannot be restored: reported, not explored further
                 if post not in seen:
                     if len(seen) >= max_states:
                         capped = True
